@@ -78,7 +78,7 @@ def run(ctx):
     for c, o in zip(cases, out):
         role, framing, level = c.split()[:3]
         if o.startswith('ok'):
-            kv = dict(x.split('=') for x in o.split()[1:])
+            kv = dict(x.split('=', 1) for x in o.split()[1:])
             cls = f'{role}/{framing}/end={kv["end"]}'
             classes[cls] = classes.get(cls, 0) + 1
             problem = None
@@ -123,7 +123,7 @@ def shrink_case(ctx, case):
         res = []
         for o in outs:
             if o.startswith('ok'):
-                kv = dict(x.split('=') for x in o.split()[1:])
+                kv = dict(x.split('=', 1) for x in o.split()[1:])
                 res.append(kv.get('shutdown_ok') != '1' or ('request_completed' in kv and kv['request_completed'] != '1'))
             else:
                 res.append(o != 'SKIPPED')
